@@ -1,6 +1,7 @@
 import Gnmi.Model.ClientRun
 import Driver.Codec
 import Driver.GF
+import Driver.Poll
 /-! `rc` component: `client.Reconnect` over `BaseClient`/`CacheClient` with a scripted transport
 (model = the client LTS under the deterministic scenario schedule; there is no separate spec:
 the monitors of the property are evaluated by the harness and must all answer `ok`). -/
@@ -115,6 +116,11 @@ def step (s : St) (args : List String) : St × String × String :=
   match args with
   | ["ret"] => (s, s.ret, s.ret)
   | ["mon"] => (s, s.mon, s.mon)
+  | ["new", "poll", mode, first, polls, inj] =>
+      -- Close while Poll calls are in flight (Model/ClientPoll.lean, Driver/Poll.lean)
+      match Driver.Poll.run mode first polls inj with
+      | some (t, r) => ({ ret := r, mon := "ok" }, t, t)
+      | none => ({}, "bad-scenario", "bad-scenario")
   | ["new", "gf", outs, sched] =>
       -- `client.NewImpl` = getFirst over several client types (Model/ClientFirst.lean, Driver/GF.lean)
       match Driver.GF.run outs sched with
